@@ -3,7 +3,10 @@
 
 package jsonata
 
-import "unsafe"
+import (
+	"reflect"
+	"unsafe"
+)
 
 // Point kinds (unused without the verif build tag).
 const (
@@ -16,6 +19,8 @@ const (
 	vRLock
 	vRUnlock
 )
+
+func vmap(m map[string]reflect.Value) unsafe.Pointer { return nil }
 
 // vpoint is a no-op without the verif build tag.
 func vpoint(kind uint8, loc unsafe.Pointer) {}
